@@ -78,6 +78,9 @@ theorem call_on_packed_slice_fails {β : Type} (sg : Sig) (f : List Val → β) 
 
 /-! ## main clause: the logging configuration changes only what is logged -/
 
+def exEnvT : Env := { sig := { params := [], velem := none, nOut := 1, isMethod := false }, kind := .patch, name := "pkg.G",
+                      render := fun v => some v.tok, orig := fun _ => [intVal 0] }
+
 /-- The full-strength statement for an environment: all four configurations give the transcript of logging-off. -/
 def DebugTransparent (env : Env) : Prop :=
   ∀ (cfg : Cfg) (ops : List Op), obs env (initSt cfg) ops = obs env (initSt .off) ops
@@ -96,6 +99,16 @@ theorem debug_transparent_partial (env : Env) (tot : Total env) : DebugTranspare
   intro cfg ops
   have h : Sim (initSt cfg) (initSt .off) := by cases cfg <;> exact ⟨rfl, rfl, rfl⟩
   exact (debug_transparent_sim env tot _ _ h ops).1
+
+/-- Turning the switches in the middle of a scenario is invisible: the transcript of a scenario with its
+    OpenDebug/CloseDebug/OpenTrace/CloseTrace operations removed, started in ANY related state (e.g. logging never touched),
+    is the transcript of the original scenario without the tokens of those operations. -/
+theorem toggles_erasable (env : Env) (tot : Total env) (a b : St) (h : Sim a b) (ops : List Op) :
+    obs env b (ops.filter (fun o => !isDbg o)) = eraseToks ops (obs env a ops) :=
+  run_erase env tot ops a b h
+
+example : obs exEnvT (initSt .off) ([Op.dbg .tron, .ret [intVal 3], .dbg .troff, .call [], .dbg .on].filter (fun o => !isDbg o))
+        = eraseToks [Op.dbg .tron, .ret [intVal 3], .dbg .troff, .call [], .dbg .on] ["ok", "ok", "ok", "->r:3", "ok"] := by decide
 
 /-- With total fmt the process never dies in the logging code, in any configuration, whatever the scenario. -/
 theorem debug_never_crashes (env : Env) (tot : Total env) (cfg : Cfg) (ops : List Op) :
